@@ -1060,9 +1060,32 @@ class C11(L1Prop):
             ops += [f"swalk {c}" for c in range(1, nc + 1)]
             out.append(Case(f"c11-{k}", ops))
         out += foreign_chain_cases("c11", rng, sizes(tier, 10, 100), ["swalk 1", "swalk 2"])
+        # through the HTTP entry point: uploads that are refused (the body breaks off, is empty, has the
+        # wrong type, is too long) never become what GetSnapshot returns; each complete upload for the
+        # latest version does
+        for k in range(sizes(tier, 12, 100)):
+            ops = ["http POST av hyph=nil hyph=1 history b:1"]
+            for j in range(rng.randint(3, 8)):
+                ops.append("http POST av hyph=latest:1 hyph=1 history b:2")
+                r = rng.random()
+                if r < 0.45:
+                    body = rng.choice([f"b:{j},{k % 250},7", f"chunks:{rng.randint(1, 30)},{rng.randint(1, 30)}", f"r:{rng.randint(65, 900)}"])
+                    ops.append(f"http POST as hyph=latest:1 hyph=1 snapshot {body}")
+                else:
+                    bad = rng.choice([("snapshot", f"brk:{rng.randint(1, 40)}"), ("snapshot", f"brk:{rng.randint(1, 40)},{rng.randint(1, 40)}"),
+                                      ("snapshot", "e"), ("other", "b:6"), ("history", "b:6"), ("snapshot-prefix", "b:6")])
+                    ops.append(f"http POST as hyph=latest:1 hyph=1 {bad[0]} {bad[1]}")
+                ops.append("http GET snap - hyph=1 absent e")
+            out.append(Case(f"c11-http-{k}", ops, {"http": True}, mode="http"))
         return out
     def relevant(self, i, trace):
         o, ri, rm = trace[i]
+        if o.startswith("http "):
+            from .props_http import HOp, HResp
+            if HOp(o).route != "snap":
+                return False
+            a, b = HResp(ri), HResp(rm)
+            return (a.status, a.xv, a.body) != (b.status, b.xv, b.body)
         op = Op(o)
         if op.kind == "gs":
             return True
@@ -1075,6 +1098,24 @@ class C11(L1Prop):
         return False
     def oracle(self, case, trace, backend):
         fails, tr = [], SnapTracker()
+        if case.meta.get("http"):
+            from .props_http import HOp, HResp
+            cur = None         # (version, body) of the most recent complete, well-formed upload for the latest version
+            for i, (o, ri, rm) in enumerate(trace):
+                if not o.startswith("http "):
+                    continue
+                h, r = HOp(o), HResp(ri)
+                if h.route == "as":
+                    if h.valid() and r.status == 200:
+                        cur = (h.seg, h.body())
+                    elif not h.valid() and r.status == 200:
+                        fails.append(f"op {i}: an upload that was not complete / well-formed was answered 200: `{o[:90]}`")
+                if h.route == "snap":
+                    got = (r.xv, r.body) if r.status == 200 else None
+                    if got != cur:
+                        fails.append(f"op {i}: get_snapshot returned {str(got)[:80]}, the most recently accepted upload is {str(cur)[:80]}")
+                        cur = got
+            return fails
         i = 0
         while i < len(trace):
             o, ri, rm = trace[i]
